@@ -5,7 +5,10 @@ pub mod gen;
 pub mod scen_build;
 #[cfg(feature = "hooks")]
 pub mod scen_hook;
+pub mod scen_text;
+#[cfg(feature = "render")]
 pub mod scen_render;
+#[cfg(feature = "render")]
 pub mod scen_file;
 #[cfg(any(feature = "hooks", feature = "wasmonly"))]
 pub mod scen_wasm;
